@@ -140,6 +140,27 @@ PROPS = {
         "level_text": "Round-trip of generated accepted configurations through the real codec; counterexample search, not proof.",
         "level_note": "Trusts github.com/mdlayher/ndp's decoder as the reader of the wire format.",
     },
+    "C12": {
+        "pkg": "internal/corerad",
+        "files": ["corerad/zz_verif_C12_test.go"],
+        "run": "TestVerif_C12",
+        "level": "exploration",
+        "quick": {"shards": 8},
+        "thorough": {"shards": 16},
+        "rule": ("pairs (own RA, received RA): exhaustive over 17 aspects (hop limit, M, O, reachable, retransmit, MTU, prefix lifetimes, prefix "
+                 "identity, route lifetime, route preference, RDNSS lifetime/servers/count, DNSSL lifetime/names/count, captive portal) x classes "
+                 "{absent/zero, x, y} on each side, singly and in all pairs; rapid-generated larger RAs (several prefixes/routes, shuffled option "
+                 "order, unknown options, PREF64, SLLA; theirs derived from ours by edits half of the time). Every received RA is checked as built "
+                 "and after MarshalMessage/ParseMessage. Oracle: independent rule list from the statement, compared as multisets of (field, details) "
+                 "with verifyRAs, with the inconsistencies_total counter, the log lines and the hook of Advertiser.handle (ours built by buildRA from "
+                 "a configuration); own RA after a wire round trip => empty report. Non-trivial: at least one aspect present on both sides or one "
+                 "expected inconsistency. Distinct: FNV-64 of the canonical JSON case."),
+        "assumptions": [STAGED, "durations are unit-aligned; count-down (deprecated) lifetimes are excluded as the code documents; prefixes/routes unique within one RA",
+                        "a hop-limit difference with a zero on either side is unspecified"],
+        "technique": "bounded-exhaustive enumeration + rapid property-based testing, differential against an independent RFC 4861 6.2.7 rule list, through the wire codec",
+        "level_text": "Exhaustive over aspect classes in singles and pairs, random beyond; soundness and completeness of the report judged against an independent rule list.",
+        "level_note": "Trusts the rule list c12Expected (written from the statement) and the ndp codec.",
+    },
 }
 
 NOT_APPLICABLE = {}
